@@ -2,6 +2,7 @@
    abstract arena: any sequence of allocations gives the same abstract arena under any initial
    capacity, any allocator behaviour and with or without the always-move hook. -/
 import YaraModel.Lemmas.ArenaRoundTrip
+import YaraModel.Lemmas.ArenaGrow
 namespace YaraModel.Arena
 open YaraModel.Gen.ArenaLayout
 
